@@ -1,9 +1,9 @@
 #!/bin/sh
 # runs every claimed check at the given tier (default quick); prints one line per property
 T=${1:-quick}
-cd /verif
+cd "$(dirname "$0")/.."
 for P in $(python3 -c "import json; print(' '.join(c['property_id'] for c in json.load(open('MANIFEST.json'))['checks']))"); do
   S=$(date +%s)
-  ./check $P --tier $T > /tmp/runall_$P.log 2>&1; RC=$?
-  echo "$P rc=$RC $(( $(date +%s) - S ))s $(tail -1 /tmp/runall_$P.log | cut -c1-160)"
+  ./check $P --tier $T > /tmp/runall_${T}_$P.log 2>&1; RC=$?
+  echo "$P rc=$RC $(( $(date +%s) - S ))s $(tail -1 /tmp/runall_${T}_$P.log | cut -c1-160)"
 done
